@@ -1,10 +1,21 @@
 """Implementation driver for C16: the real TaskiqScheduler.on_ready with recording sources / broker, and the real
 LabelScheduleSource over real brokers and task registries.  Nothing of /repo is re-implemented here."""
 import asyncio
+import collections
+import dataclasses
 import datetime as dt
+import decimal
+import enum
 import inspect
+import ipaddress
 import json
+import pathlib
 import types
+import typing
+import uuid
+
+import pydantic
+import pydantic.dataclasses
 
 import vloop
 
@@ -12,22 +23,159 @@ from taskiq.abc.broker import AsyncBroker
 from taskiq.abc.schedule_source import ScheduleSource
 from taskiq.brokers.shared_broker import AsyncSharedBroker, async_shared_broker
 from taskiq.exceptions import ScheduledTaskCancelledError, SendTaskError
+from taskiq.formatters.json_formatter import JSONFormatter
+from taskiq.formatters.proxy_formatter import ProxyFormatter
 from taskiq.labels import prepare_label
 from taskiq.schedule_sources.label_based import LabelScheduleSource
 from taskiq.scheduler.scheduled_task import ScheduledTask
 from taskiq.scheduler.scheduler import TaskiqScheduler
+from taskiq.serializers.json_serializer import JSONSerializer
+from taskiq.serializers.pickle import PickleSerializer
 
 EP = dt.datetime(1970, 1, 1)
 
 
+# ------------------------------------------------------------------ payload values that are not JSON natives
+# What a schedule's args / kwargs hold in a real deployment besides None / bool / int / float / str / list / dict: values
+# taskiq puts on the wire in their JSON form (dates, UUIDs, enum members, decimals, sets, bytes, paths, nested pydantic
+# models and dataclasses, tuples).  The classes live here because a case is JSON: {"__enum__": ["Mode", "FULL"]} etc.
+class Mode(enum.Enum):
+    FULL = "full"
+    DELTA = "delta"
+
+
+class Level(enum.Enum):
+    LOW = 1
+    HIGH = 7
+
+
+class Prio(enum.IntEnum):
+    P0 = 0
+    P2 = 2
+
+
+class Kind(str, enum.Enum):
+    A = "a"
+    B = "b"
+
+
+class Perm(enum.Flag):
+    R = 1
+    W = 2
+    X = 4
+
+
+class Window(pydantic.BaseModel):
+    since: dt.date
+    until: typing.Optional[dt.datetime] = None
+    tags: typing.Set[str] = set()
+
+
+class Job(pydantic.BaseModel):
+    id: uuid.UUID
+    mode: Mode
+    window: typing.Optional[Window] = None
+    extra: typing.Any = None
+
+
+class Money(pydantic.BaseModel):
+    """a model with a serializer of its own (model_dump honours it)"""
+    amount: decimal.Decimal
+    cur: str = "EUR"
+
+    @pydantic.field_serializer("amount")
+    def _amount(self, v):
+        return "%s %s" % (v, self.cur)
+
+
+@dataclasses.dataclass
+class Point:
+    x: int
+    when: typing.Any = None
+
+
+@dataclasses.dataclass
+class Span:
+    first: Point
+    note: typing.Any = None
+
+
+@pydantic.dataclasses.dataclass
+class Day:
+    n: int
+    day: dt.date
+
+
+class Pair(typing.NamedTuple):
+    a: typing.Any
+    b: typing.Any
+
+
+ENUMS = {c.__name__: c for c in (Mode, Level, Prio, Kind, Perm)}
+MODELS = {c.__name__: c for c in (Window, Job, Money)}
+DCS = {c.__name__: c for c in (Point, Span, Day)}
+
+
+def fields_of(v):
+    """field name -> value of a pydantic model / a dataclass instance (declaration order), else None"""
+    if isinstance(v, pydantic.BaseModel):
+        return {k: getattr(v, k) for k in type(v).model_fields}
+    if dataclasses.is_dataclass(v) and not isinstance(v, type):
+        return {f.name: getattr(v, f.name) for f in dataclasses.fields(v)}
+    return None
+
+
 # ------------------------------------------------------------------ value coding (case JSON <-> Python)
+def skey(x):
+    return json.dumps(x, sort_keys=True)
+
+
 def dec(v):
-    """case JSON -> Python value ({"__bytes__": hex} -> bytes, {"__td__": us} -> timedelta)"""
+    """case JSON -> Python value: {"__bytes__": hex} -> bytes, {"__td__": us} -> timedelta, ... (canon is the inverse)"""
     if isinstance(v, dict):
-        if "__bytes__" in v:
-            return bytes.fromhex(v["__bytes__"])
-        if "__td__" in v:
-            return dt.timedelta(microseconds=v["__td__"])
+        if len(v) == 1:
+            (k, x), = v.items()
+            if k == "__bytes__":
+                return bytes.fromhex(x)
+            if k == "__bytearray__":
+                return bytearray.fromhex(x)
+            if k == "__td__":
+                return dt.timedelta(microseconds=x)
+            if k == "__float__":
+                return float.fromhex(x)
+            if k == "__date__":
+                return dt.date(*x)
+            if k == "__dt__":
+                return dec_time(x)
+            if k == "__time__":
+                t = (EP + dt.timedelta(microseconds=x[0])).time()
+                return t if x[1] is None else t.replace(tzinfo=dt.timezone(dt.timedelta(minutes=x[1])))
+            if k == "__uuid__":
+                return uuid.UUID(hex=x)
+            if k == "__enum__":
+                return ENUMS[x[0]][x[1]] if isinstance(x[1], str) else ENUMS[x[0]](x[1])
+            if k == "__dec__":
+                return decimal.Decimal(x)
+            if k == "__set__":
+                return {dec(e) for e in x}
+            if k == "__fset__":
+                return frozenset(dec(e) for e in x)
+            if k == "__tuple__":
+                return tuple(dec(e) for e in x)
+            if k == "__nt__":
+                return Pair(*[dec(e) for e in x])
+            if k == "__path__":
+                return pathlib.Path(x)
+            if k == "__ip__":
+                return ipaddress.ip_address(x)
+            if k == "__model__":
+                return MODELS[x[0]](**{f: dec(y) for f, y in x[1].items()})
+            if k == "__dc__":
+                return DCS[x[0]](**{f: dec(y) for f, y in x[1].items()})
+            if k == "__map__":
+                return {dec(a): dec(b) for a, b in x}
+            if k == "__odict__":
+                return collections.OrderedDict((a, dec(b)) for a, b in x)
         return {k: dec(x) for k, x in v.items()}
     if isinstance(v, list):
         return [dec(x) for x in v]
@@ -56,15 +204,47 @@ def canon(v, live=None):
     """Python value -> canonical JSON-able value; `live` maps id(list) -> task name for live schedule lists"""
     if live and isinstance(v, list) and id(v) in live:
         return {"__sched__": live[id(v)]}
+    if isinstance(v, enum.Enum):                       # before int / str: IntEnum and str-mixin members are both
+        return {"__enum__": [type(v).__name__, v.value if isinstance(v, enum.Flag) else v.name]}
     if isinstance(v, bytes):
         return {"__bytes__": v.hex()}
+    if isinstance(v, bytearray):
+        return {"__bytearray__": v.hex()}
     if isinstance(v, dt.timedelta):
         return {"__td__": v // dt.timedelta(microseconds=1)}
     if isinstance(v, dt.datetime):
         return {"__dt__": enc_time(v)}
+    if isinstance(v, dt.date):
+        return {"__date__": [v.year, v.month, v.day]}
+    if isinstance(v, dt.time):
+        off = v.utcoffset()
+        return {"__time__": [(dt.datetime.combine(EP.date(), v.replace(tzinfo=None)) - EP) // dt.timedelta(microseconds=1),
+                             None if off is None else int(off.total_seconds() // 60)]}
+    if isinstance(v, uuid.UUID):
+        return {"__uuid__": v.hex}
+    if isinstance(v, decimal.Decimal):
+        return {"__dec__": str(v)}
+    if isinstance(v, (set, frozenset)):
+        return {"__set__" if isinstance(v, set) else "__fset__": sorted((canon(x, live) for x in v), key=skey)}
+    if isinstance(v, pathlib.PurePath):
+        return {"__path__": str(v)}
+    if isinstance(v, (ipaddress.IPv4Address, ipaddress.IPv6Address)):
+        return {"__ip__": str(v)}
+    if isinstance(v, pydantic.BaseModel) and type(v).__name__ in MODELS:
+        return {"__model__": [type(v).__name__, {k: canon(x, live) for k, x in fields_of(v).items()}]}
+    if fields_of(v) is not None and type(v).__name__ in DCS:
+        return {"__dc__": [type(v).__name__, {k: canon(x, live) for k, x in fields_of(v).items()}]}
+    if isinstance(v, collections.OrderedDict):
+        return {"__odict__": [[str(k), canon(x, live)] for k, x in v.items()]}
     if isinstance(v, dict):
+        if any(not isinstance(k, str) for k in v):
+            return {"__map__": [[canon(k, live), canon(x, live)] for k, x in v.items()]}
         return {str(k): canon(x, live) for k, x in v.items()}
-    if isinstance(v, (list, tuple)):
+    if isinstance(v, Pair):
+        return {"__nt__": [canon(x, live) for x in v]}
+    if isinstance(v, tuple):
+        return {"__tuple__": [canon(x, live) for x in v]}
+    if isinstance(v, list):
         return [canon(x, live) for x in v]
     if isinstance(v, float):
         return {"__float__": v.hex()}
@@ -73,9 +253,78 @@ def canon(v, live=None):
     return {"__repr__": repr(v)}
 
 
+ANY = pydantic.TypeAdapter(typing.Any)
+
+
+def json_form(v):
+    """the JSON form of a payload value, asked of pydantic directly (nothing of taskiq is involved): what taskiq's
+    documented behaviour - the message is model_dump(mode="json") of the TaskiqMessage - puts on the wire for it"""
+    return ANY.dump_python(v, mode="json")
+
+
+def norm(py, wire):
+    """`wire` = JSON form of the Python value `py`: sort the lists that stand for a set / frozenset of `py` (the order in
+    which a set is written out is nobody's promise); everything else is left as it is"""
+    f = fields_of(py)
+    if f is not None:
+        py = f
+    if isinstance(py, (set, frozenset)) and isinstance(wire, list):
+        return sorted(wire, key=skey)
+    if isinstance(py, dict) and isinstance(wire, dict):
+        if all(isinstance(k, str) for k in py):
+            return {k: (norm(py[k], x) if k in py else x) for k, x in wire.items()}
+        return wire
+    if isinstance(py, (list, tuple)) and isinstance(wire, list) and len(py) == len(wire):
+        return [norm(a, b) for a, b in zip(py, wire)]
+    return wire
+
+
+def wire_form(py):
+    """expected decoded message content for the schedule's args (list) / kwargs (dict), canonical"""
+    return norm(py, canon(json_form(py)))
+
+
 def prepared(labels):
     """what the statement expects on the wire for these labels: prepare_label (the subject of C09) of each"""
     return {k: list(prepare_label(v)) for k, v in labels.items()}
+
+
+class SubProxyFormatter(ProxyFormatter):
+    """a deployment's own formatter that extends the default one (nothing overridden)"""
+
+
+def configure(b, conf):
+    """formatter / serializer of the broker as a deployment sets them.  fmt: default = what AsyncBroker.__init__ put
+    there (ProxyFormatter), proxy = with_formatter(ProxyFormatter(b)), proxy_sub = a subclass of it, json = JSONFormatter;
+    ser: default (JSONSerializer of __init__), json = with_serializer(JSONSerializer()), json_default =
+    JSONSerializer(default=str), pickle = PickleSerializer."""
+    conf = conf or {}
+    fmt, ser = conf.get("fmt", "default"), conf.get("ser", "default")
+    if ser == "json":
+        b.with_serializer(JSONSerializer())
+    elif ser == "json_default":
+        b.with_serializer(JSONSerializer(default=str))
+    elif ser == "pickle":
+        b.with_serializer(PickleSerializer())
+    elif ser != "default":
+        raise AssertionError("scenario: unknown serializer %r" % (ser,))
+    if fmt == "proxy":
+        b.with_formatter(ProxyFormatter(b))
+    elif fmt == "proxy_sub":
+        b.with_formatter(SubProxyFormatter(b))
+    elif fmt == "json":
+        b.with_formatter(JSONFormatter())
+    elif fmt != "default":
+        raise AssertionError("scenario: unknown formatter %r" % (fmt,))
+    b.lenient = ser == "pickle"
+
+
+def norm_kicks(log, args, kwargs):
+    """kick entries of the log: set-borne lists sorted the way the expectation's are (see norm)"""
+    for e in log:
+        if e[0] == "kick":
+            e[1]["args"] = norm(list(args), e[1]["args"])
+            e[1]["kwargs"] = norm(dict(kwargs), e[1]["kwargs"])
 
 
 class RecBroker(AsyncBroker):
@@ -84,10 +333,16 @@ class RecBroker(AsyncBroker):
         self.log = log
         self.kick_ok = kick_ok
         self.kick_d = kick_d
+        self.lenient = False
 
     async def kick(self, message):
-        m = self.formatter.loads(message.message)
-        self.log.append(["kick", dict(task_name=m.task_name, args=canon(m.args), kwargs=canon(m.kwargs),
+        m = self.formatter.loads(message.message)          # decoded with the very formatter that encoded it
+        args, kwargs = m.args, m.kwargs
+        if self.lenient:
+            # a serializer that can carry Python objects (pickle): the values themselves arriving instead of their JSON
+            # form is still "the schedule's arguments" - judged on the JSON form of whatever arrived
+            args, kwargs = json_form(args), json_form(kwargs)
+        self.log.append(["kick", dict(task_name=m.task_name, args=canon(args), kwargs=canon(kwargs),
                                       labels={k: [m.labels[k], m.labels_types.get(k) if m.labels_types else None]
                                               for k in m.labels},
                                       bm_task_name=message.task_name, bm_labels=canon(message.labels))])
@@ -293,6 +548,9 @@ def run_fire(c):
     log, started = [], []
     reset_globals()
     b = RecBroker(log, c["kick_ok"], c.get("kick_d", 0))
+    conf = c.get("broker") or {}
+    if not conf.get("late"):
+        configure(b, conf)
     src, late_bind = make_source(log, started, c)
     p = c["payload"]
     kw = dict(task_name=p["task"], labels=dec(p["labels"]), args=dec(p["args"]), kwargs=dec(p["kwargs"]),
@@ -308,13 +566,19 @@ def run_fire(c):
         loop.set_exception_handler(lambda *_: None)      # a future nobody waited for is an observation, not noise
         sch = TaskiqScheduler(b, [src] if c.get("registered", True) else [])
         late_bind(src)
+        if conf.get("late"):
+            configure(b, conf)                           # formatter / serializer set after the scheduler was built
         res = await guarded(sch.on_ready(src, st))
         log.append(["ret"])                              # on_ready has returned; whatever follows happened too late
         await drain(started)
         return res
 
     res = vloop.run(main)
-    return dict(effects=log, result=res, expect_labels=expect, sched_args=canon(st.args), sched_kwargs=canon(st.kwargs))
+    norm_kicks(log, st.args, st.kwargs)
+    # sched_args / sched_kwargs: the schedule's arguments in the form a decoded message has them = their JSON form, asked
+    # of pydantic directly (the identity on None / bool / int / float / str / list / dict)
+    return dict(effects=log, result=res, expect_labels=expect, sched_args=wire_form(list(st.args)),
+                sched_kwargs=wire_form(dict(st.kwargs)))
 
 
 # ------------------------------------------------------------------ label source histories
@@ -354,6 +618,9 @@ def run_label_(c):
     None) before the declarations / after them / between listings and firings."""
     log = []
     b = RecBroker(log)
+    conf = c.get("broker") or {}
+    if not conf.get("late"):
+        configure(b, conf)
     other = RecBroker([])
     third = RecBroker([])            # the broker of the hidden tasks (nothing of it ever reaches a registry b can see)
     sh2 = AsyncSharedBroker()
@@ -405,6 +672,8 @@ def run_label_(c):
         set_default(*d)
     src = LabelScheduleSource(b)
     sch = TaskiqScheduler(b, [src])
+    if conf.get("late"):
+        configure(b, conf)
     real_pre, real_post = src.pre_send, src.post_send   # the source's own methods, observed through instance attributes
     started = []
     cb_style = c.get("cb_style", "sync")     # how a wrapping source hands the real callback's work back (see deliver)
@@ -496,12 +765,14 @@ def run_label_(c):
                 expect = prepared(s.labels)
                 before = sview(s)
                 del started[:]
+                wire_args, wire_kwargs = wire_form(list(s.args)), wire_form(dict(s.kwargs))
                 res = await guarded(sch.on_ready(src, s))
                 log.append(["ret"])
                 v = view()                   # the registry as on_ready left it
                 await drain(started)
+                norm_kicks(log, s.args, s.kwargs)
                 obs.append(dict(op="fire", sched=before, expect_labels=expect, effects=list(log), result=res, view=v,
-                                by_hand=op[0] == "fire_decl"))
+                                by_hand=op[0] == "fire_decl", wire_args=wire_args, wire_kwargs=wire_kwargs))
         return obs
 
     async def main_(loop):
